@@ -181,6 +181,11 @@ func (g *valGen) val(t *rapid.T, typ reflect.Type, depth int) GoVal {
 		return GoVal{Ptr: &v}
 	case reflect.Interface:
 		var dt *TypeDesc
+		if !g.inlineIface && depth < 3 && g.budget > 0 && rapid.IntRange(0, 39).Draw(t, "vdeep") == 0 {
+			// containers nested 2..12 levels inside one interface value (the
+			// unfolder keeps its scratch slots for these on a growing buffer)
+			return g.deepNest(t, rapid.IntRange(2, 12).Draw(t, "vdeepn"))
+		}
 		if g.inlineIface {
 			g.inlineIface = false
 			dt = g.dynObjType(t, depth)
@@ -261,6 +266,40 @@ func (g *valGen) val(t *rapid.T, typ reflect.Type, depth int) GoVal {
 	}
 	// chan, func, complex: zero value
 	return GoVal{Nil: true}
+}
+
+// deepNest draws an interface value holding k nested []interface{} /
+// map[string]interface{} levels with scalar neighbours before and after the
+// nested child.
+func (g *valGen) deepNest(t *rapid.T, k int) GoVal {
+	g.budget -= 2
+	scalar := func() GoVal {
+		return GoVal{Ptr: &GoVal{I: int64(rapid.IntRange(0, 99).Draw(t, "vdeeps"))}, Dyn: &TypeDesc{Kind: "int"}}
+	}
+	if k == 0 {
+		return scalar()
+	}
+	child := g.deepNest(t, k-1)
+	if rapid.IntRange(0, 3).Draw(t, "vdeepm") == 0 {
+		inner := GoVal{Keys: []string{}, Elems: []GoVal{}}
+		if rapid.Bool().Draw(t, "vdeepb") {
+			inner.Keys, inner.Elems = append(inner.Keys, "a"), append(inner.Elems, scalar())
+		}
+		inner.Keys, inner.Elems = append(inner.Keys, "n"), append(inner.Elems, child)
+		if rapid.Bool().Draw(t, "vdeepa") {
+			inner.Keys, inner.Elems = append(inner.Keys, "z"), append(inner.Elems, scalar())
+		}
+		return GoVal{Ptr: &inner, Dyn: &TypeDesc{Kind: "map", Elem: &TypeDesc{Kind: "iface"}}}
+	}
+	inner := GoVal{Elems: []GoVal{}}
+	if rapid.Bool().Draw(t, "vdeepb") {
+		inner.Elems = append(inner.Elems, scalar())
+	}
+	inner.Elems = append(inner.Elems, child)
+	if rapid.Bool().Draw(t, "vdeepa") {
+		inner.Elems = append(inner.Elems, scalar())
+	}
+	return GoVal{Ptr: &inner, Dyn: &TypeDesc{Kind: "slice", Elem: &TypeDesc{Kind: "iface"}}}
 }
 
 // Materialize builds the described value as an addressable reflect.Value of typ.
